@@ -13,10 +13,11 @@ from .calls import CallMixin
 from .calls2 import Call2Mixin
 from .builtins_ import BuiltinMixin
 from .numeric import NumericMixin
+from .treeheap import TreeHeapMixin
 from . import world as world_mod
 
 
-class Interp(InterpBase, ExprMixin, StmtMixin, CallMixin, Call2Mixin, BuiltinMixin, NumericMixin):
+class Interp(TreeHeapMixin, InterpBase, ExprMixin, StmtMixin, CallMixin, Call2Mixin, BuiltinMixin, NumericMixin):
 
   def __init__(self, world, explorer, registry, prop=''):
     super().__init__(world, explorer, registry, prop)
@@ -343,6 +344,10 @@ def prove_lemma(world, reg, lemma, prop, timeout_ms=20000):
     it = Interp(world, ex, reg, prop)
     it.cur_name = f'{prop}/lemma:{lemma.name}'
     env = {p: it.fresh(ty, p) for p, ty in lemma.types.items()}
+    for p, ty in lemma.types.items():
+      if ty == 'region':             # a lemma's region variable plays the role of the ghost region at call sites
+        it.ghost[p] = env[p]
+    it.entry_old = it.snapshot({})
     for r in lemma.requires:
       it.assume(it.spec(r, env))
     for k, e in enumerate(lemma.ensures):
